@@ -1656,6 +1656,10 @@ class Mesh(_MeshIO):
         """
         sr_ref = self.region.center if reference_point is None else reference_point
         if inplace:
+            # refuse before anything is modified: the copying form raises for a
+            # subregion that would lose its extent
+            for sr in self.subregions.values():
+                sr.scale(factor, reference_point=sr_ref)
             self.region.scale(factor, inplace=True, reference_point=reference_point)
             for sr in self.subregions.values():
                 sr.scale(factor, inplace=True, reference_point=sr_ref)
@@ -1754,6 +1758,10 @@ class Mesh(_MeshIO):
 
         """
         if inplace:
+            # refuse before anything is modified: the copying form raises for a
+            # subregion that would lose its extent
+            for sr in self.subregions.values():
+                sr.translate(vector)
             self.region.translate(vector, inplace=True)
             for sr in self.subregions.values():
                 sr.translate(vector, inplace=True)
@@ -1832,6 +1840,15 @@ class Mesh(_MeshIO):
         :py:func:`~discretisedfield.Field.rotate90`
 
         """
+        if reference_point is None:
+            reference_point = self.region.centre
+
+        if inplace:
+            # refuse before anything is modified: the copying form raises for a
+            # subregion that would lose its extent
+            for subregion in self.subregions.values():
+                subregion.rotate90(ax1=ax1, ax2=ax2, k=k, reference_point=reference_point)
+
         # all checks will be performed by region.rotate90
         region = self.region.rotate90(
             ax1=ax1, ax2=ax2, k=k, reference_point=reference_point, inplace=inplace
@@ -1842,9 +1859,6 @@ class Mesh(_MeshIO):
             idx1 = self.region._dim2index(ax1)
             idx2 = self.region._dim2index(ax2)
             n[idx1], n[idx2] = n[idx2], n[idx1]
-
-        if reference_point is None:
-            reference_point = self.region.centre
 
         subregions = {
             name: subregion.rotate90(
